@@ -24,7 +24,7 @@ type c02 struct{}
 func (c02) ID() string    { return "C02" }
 func (c02) Level() string { return "model_checking" }
 func (c02) Rule() string {
-	return "for each corpus input, with Go's map hash seeds pinned by a runtime overlay: the canonical execution (every map iteration starts at slot 0), every execution in which all iterations start at the same other position (8 quick / 64 thorough), every execution that deviates at exactly ONE dynamic map-iteration point (each alternative start), every execution that deviates at every instance of ONE iteration site (caller pc) with every bucket/offset start; all permutations of service/network/volume declaration order and of one service's attributes in the YAML text; every history of <=2 earlier loads (each in a fresh subprocess) before each target. Outcome class, canonical project and YAML/JSON bytes must be identical. state = one executed choice vector; transition = one map-iteration start decision; distinct = distinct (input, deviation) pairs that reached a load"
+	return "for each corpus input, with Go's map hash seeds pinned by a runtime overlay: the canonical execution (every map iteration starts at slot 0), every execution in which all iterations start at the same other position (8 quick / 64 thorough), every execution that deviates at exactly ONE dynamic map-iteration point (each alternative start), every execution that deviates at every instance of ONE iteration site (caller pc) with every bucket/offset start; all permutations of service/network/volume declaration order and of one service's attributes in the YAML text; every history of <=2 earlier loads (each in a fresh subprocess) before each target, the inputs including near-copies of four valid inputs that fail half-way through a keyed list. Outcome class, canonical project and YAML/JSON bytes must be identical. state = one executed choice vector; transition = one map-iteration start decision; distinct = distinct (input, deviation) pairs that reached a load"
 }
 func (c02) Assumptions() []string {
 	return []string{
@@ -94,6 +94,41 @@ func c02inputs(quick bool) map[string]*Scn {
 	all["profiles-p1"] = &Scn{Files: all["profiles"].Files, Main: all["profiles"].Main, Opts: []func(*loader.Options){loader.WithProfiles([]string{"p1"})}}
 	for k, v := range c02extraInputs() {
 		all[k] = v
+	}
+	// near-copies of valid inputs that fail late: every ports / volumes list of every service gets one more valid entry in
+	// front and a broken one (no target) at the end, so the load gives up half-way through a list whose entries the
+	// valid input has too, at other positions. A load that failed must leave nothing behind for the next one.
+	for _, n := range []string{"rich", "rich2", "restated", "wide"} {
+		base := all[n]
+		if base == nil || len(base.Main) != 1 {
+			continue
+		}
+		doc := yamlToMap(base.Files[base.Main[0]])
+		svcs, _ := doc["services"].(map[string]any)
+		touched := false
+		for _, sv := range svcs {
+			m, ok := sv.(map[string]any)
+			if !ok {
+				continue
+			}
+			if l, ok := m["volumes"].([]any); ok && len(l) > 0 {
+				m["volumes"] = append(append([]any{"./nearfail:/nearfail"}, l...), map[string]any{"type": "volume", "source": "nearfail"})
+				touched = true
+			}
+			if l, ok := m["ports"].([]any); ok && len(l) > 0 {
+				m["ports"] = append(append([]any{"1:1"}, l...), map[string]any{"published": "2"})
+				touched = true
+			}
+		}
+		if !touched {
+			continue
+		}
+		files := map[string]string{}
+		for f, v := range base.Files {
+			files[f] = v
+		}
+		files[base.Main[0]] = mapToYAML(doc)
+		all["near-fail-"+n] = &Scn{Files: files, Main: base.Main, Env: base.Env}
 	}
 	return all
 }
